@@ -758,9 +758,12 @@ func (w *bWorld) submit(op *bOp) {
 	}
 
 	if op.Type == operation.TypeCreate && op.Accepted {
-		var m map[string]interface{}
-		_ = json.Unmarshal(body, &m)
-		d.CreateResp = m
+		// (a retried create accepted under another protocol version is another DID: keep the first response)
+		if d.CreateResp == nil {
+			var m map[string]interface{}
+			_ = json.Unmarshal(body, &m)
+			d.CreateResp = m
+		}
 
 		// the suffix is the hash of the suffix data under the first algorithm of the version that accepted the create
 		for _, vv := range w.versions {
